@@ -50,7 +50,8 @@ Lemma conservation_lemma : forall s, reachable s -> settled s ->
   m_consumed (st_met s) = Z.of_nat (length (g_confirmed g)).
 Proof.
   intros s Hr (Hup & Hf & Hh) g. subst g. pose proof (reachable_inv s Hr Hup) as Hinv.
-  destruct (i_empty _ _ _ Hinv (or_intror Hf)) as [Hq Hw].
+  destruct (i_empty _ _ _ Hinv) as [Hq Hw]. specialize (Hw Hf).
+  assert (Hq' : st_queue s = []) by (apply Hq; rewrite Hf; reflexivity). clear Hq. rename Hq' into Hq.
   assert (Hcnt : forall x, (cnt x (g_confirmed (st_gh s)) + cnt x (g_retained (st_gh s)) + cnt x (g_dropped (st_gh s)) = cnt x (entered (st_gh s)))%nat).
   { intros x. pose proof (i_count _ _ _ Hinv x) as Hx. unfold inflight in Hx. rewrite Hq, Hw, Hh, Hf in Hx.
     cbn [hand app ids map] in Hx. rewrite cnt_nil in Hx. lia. }
@@ -194,7 +195,7 @@ Proof.
   intros s Hr Hup. destruct (window_bound_lemma s Hr Hup) as [Hw Hq].
   unfold loaded_in_buffer. etransitivity; [apply filter_length_le|].
   rewrite !app_length.
-  assert (length (hand (st_fpc s)) <= 2)%nat by (destruct (st_fpc s) as [| | |[?|]|[?|] ?| |]; cbn [hand length]; lia).
+  assert (length (hand (st_fpc s)) <= 2)%nat by (destruct (st_fpc s) as [| | |[?|]|[?|] ?| | | |]; cbn [hand length]; lia).
   lia.
 Qed.
 
@@ -336,7 +337,7 @@ Lemma accept_sound_lemma : forall ops i hold s h s' h',
 Proof.
   induction ops as [|o ops IH]; intros i hold s h s' h' H; cbn [replay] in H.
   - inversion H; subst. exists []. split; reflexivity.
-  - unfold ops_events. cbn [map concat]. fold (ops_events ops). destruct o as [e|n Q M maxb|].
+  - unfold ops_events. cbn [map concat]. fold (ops_events ops). destruct o as [e|n Q M maxb| |].
     + destruct (is_hidden e) eqn:Eh; [discriminate|].
       destruct (match hold with Some _ => negb (allowed_while_held matchf e) | None => false end); [discriminate|].
       destruct (step s e) as [s1|] eqn:Es; [|discriminate].
@@ -356,6 +357,13 @@ Proof.
       * rewrite run_app, Es, run_app, Hr. exact Hrun.
       * rewrite !visible_app, (visible_hidden _ Hh), Hvis. reflexivity.
     + destruct (stalled hold s); [|discriminate].
+      destruct (quiesce matchf dirsize None (quiesce_fuel s) s) as [s2|] eqn:Eq; [|discriminate].
+      destruct (quiesce_sound _ _ _ _ Eq) as (hid & Hh & Hr).
+      destruct (IH _ _ _ _ _ _ H) as (evs & Hrun & Hvis).
+      exists (hid ++ evs). split.
+      * rewrite run_app, Hr. exact Hrun.
+      * rewrite visible_app, (visible_hidden _ Hh), Hvis. reflexivity.
+    + destruct hold; [discriminate|]. destruct (st_win s); [|discriminate].
       destruct (quiesce matchf dirsize None (quiesce_fuel s) s) as [s2|] eqn:Eq; [|discriminate].
       destruct (quiesce_sound _ _ _ _ Eq) as (hid & Hh & Hr).
       destruct (IH _ _ _ _ _ _ H) as (evs & Hrun & Hvis).
